@@ -35,6 +35,10 @@ type vStaking struct {
 	ledgerNotBonded  math.Int
 	unbonded         math.Int // tokens taken out of validators by Unbond
 	nUnbond          int
+	// unbonding delegations and redelegations (dispute escrow chases tokens through them)
+	ubds       []stakingtypes.UnbondingDelegation
+	reds       []stakingtypes.Redelegation
+	ubdRemoved math.Int // balance removed from unbonding entries by Set/RemoveUnbondingDelegation
 }
 
 type vValSet struct {
@@ -159,6 +163,64 @@ func (s *vStaking) Unbond(ctx context.Context, delAddr sdk.AccAddress, valAddr s
 	return math.Int{}, stakingtypes.ErrNoDelegatorForAddress
 }
 
+func ubdBalance(u stakingtypes.UnbondingDelegation) math.Int {
+	t := math.ZeroInt()
+	for _, e := range u.Entries {
+		t = t.Add(e.Balance)
+	}
+	return t
+}
+
+func (s *vStaking) GetUnbondingDelegation(ctx context.Context, delAddr sdk.AccAddress, valAddr sdk.ValAddress) (stakingtypes.UnbondingDelegation, error) {
+	for _, u := range s.ubds {
+		if u.DelegatorAddress == delAddr.String() && u.ValidatorAddress == valAddr.String() {
+			// a copy of the entries, as a store read would give
+			c := u
+			c.Entries = append([]stakingtypes.UnbondingDelegationEntry{}, u.Entries...)
+			return c, nil
+		}
+	}
+	return stakingtypes.UnbondingDelegation{}, stakingtypes.ErrNoUnbondingDelegation
+}
+
+// SetUnbondingDelegation / RemoveUnbondingDelegation: the ledger of unbonding balances changes by the difference.
+func (s *vStaking) SetUnbondingDelegation(ctx context.Context, ubd stakingtypes.UnbondingDelegation) error {
+	for i, u := range s.ubds {
+		if u.DelegatorAddress == ubd.DelegatorAddress && u.ValidatorAddress == ubd.ValidatorAddress {
+			diff := ubdBalance(u).Sub(ubdBalance(ubd))
+			s.ubdRemoved = s.ubdRemoved.Add(diff)
+			s.ledgerNotBonded = s.ledgerNotBonded.Sub(diff)
+			s.ubds[i] = ubd
+			return nil
+		}
+	}
+	s.ledgerNotBonded = s.ledgerNotBonded.Add(ubdBalance(ubd))
+	s.ubds = append(s.ubds, ubd)
+	return nil
+}
+
+func (s *vStaking) RemoveUnbondingDelegation(ctx context.Context, ubd stakingtypes.UnbondingDelegation) error {
+	for i, u := range s.ubds {
+		if u.DelegatorAddress == ubd.DelegatorAddress && u.ValidatorAddress == ubd.ValidatorAddress {
+			s.ubdRemoved = s.ubdRemoved.Add(ubdBalance(u))
+			s.ledgerNotBonded = s.ledgerNotBonded.Sub(ubdBalance(u))
+			s.ubds = append(s.ubds[:i:i], s.ubds[i+1:]...)
+			return nil
+		}
+	}
+	return nil
+}
+
+func (s *vStaking) GetRedelegationsFromSrcValidator(ctx context.Context, valAddr sdk.ValAddress) ([]stakingtypes.Redelegation, error) {
+	var out []stakingtypes.Redelegation
+	for _, r := range s.reds {
+		if r.ValidatorSrcAddress == valAddr.String() {
+			out = append(out, r)
+		}
+	}
+	return out, nil
+}
+
 // vPowerIter: ValidatorsPowerStoreIterator: the validators' addresses in the order listed (descending power).
 type vPowerIter struct {
 	s *vStaking
@@ -183,5 +245,5 @@ func (it *vPowerIter) Error() error { return nil }
 func (it *vPowerIter) Close() error { return nil }
 
 func newVStaking(bank *vBank) *vStaking {
-	return &vStaking{bank: bank, delegated: math.ZeroInt(), bonded: math.OneInt(), ledgerBonded: math.ZeroInt(), ledgerNotBonded: math.ZeroInt(), unbonded: math.ZeroInt()}
+	return &vStaking{bank: bank, delegated: math.ZeroInt(), bonded: math.OneInt(), ledgerBonded: math.ZeroInt(), ledgerNotBonded: math.ZeroInt(), unbonded: math.ZeroInt(), ubdRemoved: math.ZeroInt()}
 }
